@@ -78,6 +78,12 @@ type FuncContract struct {
 // method or interface call) whose callee's name is Callee (the last component: function or method name). The expression may name the call's
 // arguments (arg0 is the receiver of a method call) and the function's parameters and locals; a
 // local denotes the value it has at the call (the nearest definition that dominates the call).
+type fileCalls struct {
+	PkgPath, File, Unit string
+	Props               []string
+	Spec                CallSiteSpec
+}
+
 type CallSiteSpec struct {
 	Callee string
 	Clause Clause
@@ -124,6 +130,7 @@ type ContractSet struct {
 	CleanFields map[string]bool   // "pkg.Type.field": stores must be clean strings (taint obligations)
 	DirtyStrings map[string]bool  // "pkg.Type.field": string field whose content is NOT assumed to be source text
 	TaintFiles  []taintScan
+	FileCalls   []fileCalls // verif:filecalls: a callsite clause for every function defined in a file
 }
 
 type taintScan struct {
@@ -275,6 +282,24 @@ func (cs *ContractSet) loadContractFile(path, pkgPath string) error {
 				}
 			case "taintscan":
 				cs.TaintFiles = append(cs.TaintFiles, taintScan{PkgPath: pkgPath, Files: strings.Fields(arg), Unit: curUnit, Props: curProps})
+			case "filecalls":
+				// verif:filecalls <file.go> <callee> <label>: <expr> - the callsite clause is given to
+				// every function defined in the file (functions without a contract get an empty one)
+				fs := strings.Fields(arg)
+				if len(fs) < 3 {
+					return fmt.Errorf("%s: verif:filecalls <file> <callee> <label>: <expr>", where)
+				}
+				rest := strings.TrimSpace(strings.TrimPrefix(strings.TrimSpace(strings.TrimPrefix(arg, fs[0])), fs[1]))
+				m := reLabel.FindStringSubmatch(rest)
+				if m == nil {
+					return fmt.Errorf("%s: verif:filecalls needs a labelled expression", where)
+				}
+				e, err := parseCExpr(m[2])
+				if err != nil {
+					return fmt.Errorf("%s: %v", where, err)
+				}
+				cs.FileCalls = append(cs.FileCalls, fileCalls{PkgPath: pkgPath, File: fs[0], Unit: curUnit, Props: curProps,
+					Spec: CallSiteSpec{Callee: fs[1], Clause: Clause{Label: m[1], Expr: e, Src: m[2], Where: where}}})
 			case "guarded":
 				fs := strings.Fields(arg)
 				if len(fs) != 2 || !strings.Contains(fs[0], ".") {
